@@ -64,11 +64,21 @@ def flatten_tree(t, out):
     return tid
 
 
+VKINDS = ('v_new', 'v_copy', 'v_move', 'v_cassign', 'v_massign', 'v_take', 'v_dtor')
+
+
+def values_item(rec):
+    """projection of a tracked trace onto the value-lifecycle events (input of TraceValues.tla)"""
+    return {'id': rec['id'], 'ok': rec['ok'], 'events': [[e[0], e[1], e[2]] for e in rec['events'] if e[0] in VKINDS]}
+
+
 def convert(rec, gindex, keep_lex=False):
     """rec: one trace record from the harness; gindex: 1-based index of its grammar in this TLC run."""
     evs = []
     nlex = 0
     for e in rec['events']:
+        if e[0] in VKINDS:
+            continue
         if e[0] == 'L':
             c = classify(e[1])
             if c[0] in ('lexrec', 'lexchar', 'lexstate', 'clexrec') and not keep_lex:
